@@ -193,7 +193,8 @@ def _run(ix, R):
         pe = param_env(fl, f, ['s'])
         stmt = 'prior text -> (callee name, {keyword: literal_eval(value)}) with no renaming or defaults'
         r = the_return(fl)
-        b_ = dict(pe, F=spec(fl, 'ast.parse(s).body[0].value', pe))
+        Fs = [spec(fl, 'ast.parse(s).body[0].value', pe),
+              spec(fl, "getattr(ast.parse(s).body[0], 'value', None)", pe)]     # validated by an isinstance test afterwards
         names = ['F.func.id']
         dicts = ['{k_.arg: ast.literal_eval(k_.value) for k_ in F.keywords}',
                  'dict((k_.arg, ast.literal_eval(k_.value)) for k_ in F.keywords)',
@@ -202,8 +203,11 @@ def _run(ix, R):
         if ra is None or ra.head != 'tuple' or len(ra.args) != 2:
             R.error('4.parse', 'ARG', site, stmt, 'returns %s' % fmt(fl, r.value)[:160], loc=f.loc())
         else:
-            okn = any(fl.tab.equal(ra.args[0], spec(fl, t_, b_)) for t_ in names)
-            okd = any(fl.tab.equal(ra.args[1], spec(fl, t_, b_)) for t_ in dicts)
+            okn = okd = False
+            for F_ in Fs:
+                b_ = dict(pe, F=F_)
+                okn = okn or any(fl.tab.equal(ra.args[0], spec(fl, t_, b_)) for t_ in names)
+                okd = okd or any(fl.tab.equal(ra.args[1], spec(fl, t_, b_)) for t_ in dicts)
             und = ra.args[1].mentions(lambda a: a.head in ('mutated', 'phi'))
             if not okd and und:
                 R.error('4.parse', 'ARG', site, stmt, 'the argument dictionary is built by statements this rule cannot follow: %s' %
